@@ -205,14 +205,17 @@ def equiv(ref, other, *, pc=(), defined=(), side=(), timeout_ms=30000, margin=No
                 poly = _poly_form(a, b, ratcache)
             except Exception:
                 poly = None
-            if poly is not None and all(_is_zero(d) for d in poly[0]):
-                okdiv = True
+            def divisors_nonzero():
+                # every divisor met in either element is non-zero under the assumptions (one query per distinct divisor, cached): without this an
+                # element that is undefined (x/0) where the reference is defined would be hidden by the cross-multiplication
                 for fid, f in poly[1].items():
                     if fid not in divisor_ok:
                         s.push(); s.add(f == 0); rr = timed_check(s); s.pop()
                         divisor_ok[fid] = (rr == z3.unsat)
-                    if not divisor_ok[fid]: okdiv = False; break
-                if okdiv:
+                    if not divisor_ok[fid]: return False
+                return True
+            if poly is not None and all(_is_zero(d) for d in poly[0]):
+                if divisors_nonzero():
                     v.exact_unsat += 1; RAT_STATS['normalised_to_zero'] += 1; continue
         if poly is not None and (exact_first or margin is None):
             # stage 1: the same question without divisions - some cross-multiplied difference is non-zero while all divisors are non-zero -
@@ -224,7 +227,7 @@ def equiv(ref, other, *, pc=(), defined=(), side=(), timeout_ms=30000, margin=No
             r1 = timed_check(s)
             m1 = s.model() if r1 == z3.sat else None
             s.pop(); s.set('timeout', timeout_ms)
-            if r1 == z3.unsat:
+            if r1 == z3.unsat and divisors_nonzero():
                 v.exact_unsat += 1; RAT_STATS['polynomial_form_decided'] += 1; continue
         else:
             r1 = None
